@@ -8,7 +8,7 @@ sys.path.insert(0, os.path.dirname(os.path.abspath(__file__)))
 from plans import PLANS, LEVELS  # noqa: E402
 
 TEXT = {
-    "C01": ("§3 C01", "Conformance of every mutator's return value and resulting contents to a VecDeque reference model over seeded operation histories, stratified over every (capacity<=8, front position, length) layout with boundary-biased arguments. Sampling of histories: exploration.",
+    "C01": ("§3 C01", "Conformance of every mutator's return value and resulting contents to a VecDeque reference model over seeded operation histories, stratified over every (capacity<=11, front position, length) layout with boundary-biased arguments. Sampling of histories: exploration.",
             "seeded history simulation against an executable reference model (fault-free configuration of the simulator)"),
     "C02": ("§3 C02", "Identity oracle on push_*/try_push_*: the Option/Result payload is compared by element id and generation with the model's displaced/refused element at every layout and length incl. N=0 and N=1. Exploration.",
             "seeded history simulation with element-identity oracle"),
@@ -68,7 +68,7 @@ def main():
             "replay_cmd_template": "./check replay {path}",
             "engine": "cbsim",
             "level_claimed": {"category": LEVELS[pid], "text": text, "design_ref": "DESIGN.md " + ref},
-            "level_note": "Trusted base: the reference model and ledger in sim/src (a few hundred lines), rustc/std, the guarded hook (two accessors). Sampling, not proof; capacities <= 8 for tracked elements; 64-bit Linux only.",
+            "level_note": "Trusted base: the reference model and ledger in sim/src (a few hundred lines), rustc/std, the guarded hook (two accessors). Sampling, not proof; capacities <= 11 for tracked elements; 64-bit Linux only.",
             "technique": tech,
         }
         checks.append(c)
